@@ -2,7 +2,8 @@
 (* The bounded family of expressions enumerated for C31: every way of reaching a field of `inputs`
    listed in the property (dot / quoted bracket / computed access, aliases, re-assignment, functions,
    closures, shadowing parameters, string literals that only mention inputs, self/runtime, templates
-   and concatenations), crossed with one- and two-level accesses.
+   and concatenations), crossed with one- and two-level accesses; function declarations with 0/1/2 formal
+   parameters (shadowing or not, nested) followed by aliasing and reads at top level (ScopeBalance).
    A case is [c |-> class label, x |-> "some" | "none" (does it read any input field?), e |-> AST].   *)
 EXTENDS ExprDeps
 CONSTANT LEVEL                      \* 1 = quick, 2 = thorough
@@ -108,6 +109,58 @@ Rebinding ==
                                       r \in R1(A_)}
        \cup {Body(Tracked \o <<fd>>, Dot(A_, "f")) : fd \in FunForms("g", "", <<Set("a", SELF_)>>, Num(0))})
 
+\* ---- scope balance: function DECLARATIONS of every arity, then aliasing and reads at top level ----
+\* A function declaration opens a name scope that ends with the declaration, whatever its formal parameter list
+\* is (none, one, two parameters; parameters that shadow `inputs`; declarations nested in declarations).  What
+\* comes AFTER the declaration(s) at top level - a direct read of inputs, an alias made by assignment and a read
+\* through it - is evaluated in the top-level scope again.  The alias is created after, before or around the
+\* declarations; the functions are called in the returned expression (shadowing parameters receive an object
+\* literal, the other parameters `self`/0, so every read of inputs comes from the top level or from a closure).
+Zero == Num(0)
+Shape(ds, cl) == [ds |-> ds, cl |-> cl]
+\* declarations nested in an outer function: [d |-> declaration, c |-> call made by the outer function]
+InnerDecls ==
+  {[d |-> Fun("h", "", <<>>, Zero), c |-> Call("h", NoArg)],
+   [d |-> Fun("h", "k", <<>>, Zero), c |-> Call("h", SELF_)],
+   [d |-> Fun("h", "inputs", <<>>, Dot(IN_, "g")), c |-> Call("h", ObjLit)]}
+  \cup (IF LEVEL >= 2 THEN {[d |-> Fun2("h", "k", "inputs", <<>>, Dot(IN_, "g")), c |-> Call2("h", SELF_, ObjLit)],
+                            [d |-> Fun("h", "", <<>>, Dot(IN_, "g")), c |-> Call("h", NoArg)]}
+        ELSE {})
+Outer(i) ==
+  {Shape(<<Fun("g", "", <<i.d>>, i.c)>>, Call("g", NoArg)),
+   Shape(<<Fun("g", "inputs", <<i.d>>, i.c)>>, Call("g", ObjLit)),
+   Shape(<<Fun2("g", "x", "q", <<i.d>>, i.c)>>, Call2("g", SELF_, Zero))}
+  \cup (IF LEVEL >= 2 THEN {Shape(<<Fun("g", "x", <<i.d>>, i.c)>>, Call("g", SELF_)),
+                            Shape(<<Fun2("g", "inputs", "x", <<i.d>>, i.c)>>, Call2("g", ObjLit, SELF_))}
+        ELSE {})
+FlatShapes ==
+  {Shape(<<Fun("g", "", <<>>, Zero)>>, Call("g", NoArg)),                              \* function g() {}
+   Shape(<<Fun("g", "", <<>>, Dot(IN_, "g"))>>, Call("g", NoArg)),                     \* a closure reading inputs
+   Shape(<<Fun("g", "x", <<>>, Zero)>>, Call("g", SELF_)),                             \* function g(x) {}
+   Shape(<<Fun("g", "inputs", <<>>, Dot(IN_, "g"))>>, Call("g", ObjLit)),              \* function g(inputs) {}
+   Shape(<<Fun2("g", "x", "q", <<>>, Zero)>>, Call2("g", SELF_, Zero)),                \* function g(x, q) {}
+   Shape(<<Fun2("g", "x", "inputs", <<>>, Dot(IN_, "g"))>>, Call2("g", SELF_, ObjLit)),
+   Shape(<<Fun2("g", "inputs", "x", <<>>, Dot(IN_, "g"))>>, Call2("g", ObjLit, SELF_)),
+   \* two declarations in a row
+   Shape(<<Fun("g", "", <<>>, Zero), Fun("h", "k", <<>>, Zero)>>, Add(Call("g", NoArg), Call("h", SELF_))),
+   Shape(<<Fun("g", "inputs", <<>>, Dot(IN_, "g")), Fun("h", "", <<>>, Zero)>>, Add(Call("g", ObjLit), Call("h", NoArg)))}
+Shapes == FlatShapes \cup UNION {Outer(i) : i \in InnerDecls}
+\* the accesses used after the declarations, and whether the functions are called in the returned expression
+ScopeAcc(o) == IF LEVEL >= 2 THEN R1(o) ELSE {Dot(o, "f"), Idx(o, Str("arr", "sq"))}
+ScopeRet(o, sh) == {Add(r, sh.cl) : r \in ScopeAcc(o)} \cup (IF LEVEL >= 2 THEN {Dot(o, "f")} ELSE {})
+ScopeBalance ==
+  Wrap("scope-direct-read-after-function", "some",
+       UNION {{Body(sh.ds, r) : r \in ScopeRet(IN_, sh)} : sh \in Shapes})
+  \cup Wrap("scope-alias-after-function", "some",
+       UNION {{Body(sh.ds \o Tracked, r) : r \in ScopeRet(A_, sh)} : sh \in Shapes})
+  \cup Wrap("scope-alias-before-function", "some",
+       UNION {{Body(Tracked \o sh.ds, r) : r \in ScopeRet(A_, sh)} : sh \in Shapes})
+  \cup Wrap("scope-alias-around-function", "some",
+       UNION {{Body(<<VarD("a")>> \o sh.ds \o <<Set("a", IN_)>>, r) : r \in ScopeRet(A_, sh)} : sh \in Shapes})
+  \* the alias is a LOCAL of the declared function (declared, assigned and read inside it; the function is called)
+  \cup Wrap("scope-alias-inside-function", "some",
+       {Body(<<Fun("g", p, Tracked, r)>>, Call("g", SELF_)) : p \in {"", "x"}, r \in ScopeAcc(A_)})
+
 \* ---- computed member access ----
 K_ == Id("k")
 KeyVarReads(o, f) == {Idx(o, K_)} \cup A2(Idx(o, K_), f)
@@ -169,5 +222,5 @@ Templates == Wrap("template", "some", {Tmpl(p1, p2) : p1 \in TmplLeft, p2 \in Tm
                                       \cup {Tmpl(p1, p2) : p1 \in TmplParts, p2 \in {PRef("inputs", <<Seg("dq", "g")>>)}})
 
 Family == ParamRefs \cup Direct \cup Alias \cup Rebinding \cup Functions \cup Computed \cup Mentions \cup ParensTop
-          \cup Concats \cup Templates
+          \cup Concats \cup Templates \cup ScopeBalance
 =============================================================================
